@@ -33,8 +33,8 @@ MUTANTS = [
     ('t14c05-s-keeps-leading-space', 'C05', _STRIP,
      "    non_empty_line = non_empty_line.lstrip()\n\n    for next_line in lines:",
      "    for next_line in lines:",
-     '_strip_space : '),
+     '_strip_space'),        # quick tier: bounded[strip_space._strip_space]; thorough tier: `_strip_space : loop#1 invariant[entry]`
     ('t14c05-s-keeps-space-of-last-line', 'C05', _STRIP,
      "    yield non_empty_line.rstrip()", "    yield non_empty_line",
-     '_strip_space : ensures[yields the lines of the text without the white space at its beginning and end]'),
+     '_strip_space'),        # quick tier: bounded[strip_space._strip_space]; thorough: `_strip_space : ensures[yields the lines of the text without the white space at its beginning and end]`
 ]
